@@ -241,7 +241,7 @@ func (m *Machine) visitInstr(fr *frame, instr ssa.Instruction) int {
 	case *ssa.RunDefers:
 		fr.runDefers()
 	case *ssa.Panic:
-		panic(targetPanic{v: fr.get(instr.X), where: fr.posString()})
+		panic(targetPanic{v: fr.get(instr.X), where: fr.posString(), fn: fr.fn.String()})
 	case *ssa.Send:
 		c, _ := fr.get(instr.Chan).(*chanV)
 		m.chanSend(c, copyVal(fr.get(instr.X)))
@@ -290,7 +290,12 @@ func (m *Machine) visitInstr(fr *frame, instr ssa.Instruction) int {
 		*addr = zero(deref(instr.Type()))
 	case *ssa.MakeSlice:
 		tElt := instr.Type().Underlying().(*types.Slice).Elem()
-		fr.env[instr] = m.makeSlice(tElt, m.asTerm(fr.get(instr.Len)), m.asTerm(fr.get(instr.Cap)), "make")
+		ln := m.toInt64(m.asTerm(fr.get(instr.Len)), instr.Len.Type())
+		cp := ln
+		if instr.Cap != instr.Len {
+			cp = m.toInt64(m.asTerm(fr.get(instr.Cap)), instr.Cap.Type())
+		}
+		fr.env[instr] = m.makeSlice(tElt, ln, cp, "make")
 	case *ssa.MakeMap:
 		mt := instr.Type().Underlying().(*types.Map)
 		if instr.Reserve != nil {
@@ -669,7 +674,8 @@ func (m *Machine) executePhis(fr *frame) []ssa.Instruction {
 func (m *Machine) loopOverrun(fr *frame) {
 	if m.opts.AllocBudget > 0 || m.opts.CheckPanics {
 		// resource obligation: report as a finding of kind "loop"
-		m.violationNow("loop", "bounded-loop", fmt.Sprintf("loop in %s exceeded %d iterations", fr.fn, m.opts.LoopBudget),
+		m.maximizeInputs(nil)
+		m.recordViolation("loop", "bounded-loop", fmt.Sprintf("loop in %s exceeded %d iterations", fr.fn, m.opts.LoopBudget),
 			map[string]string{"func": fr.fn.String(), "site": fr.posString()})
 		panic(&abortPath{kind: "violation-stop", reason: "loop budget exceeded in " + fr.fn.String()})
 	}
@@ -841,7 +847,7 @@ func (m *Machine) callBuiltin(caller *frame, callpos token.Pos, fn *ssa.Builtin,
 		}
 		return x
 	case "panic":
-		panic(targetPanic{v: args[0], where: m.where()})
+		panic(targetPanic{v: args[0], where: m.where(), fn: m.curFn()})
 	case "recover":
 		return m.doRecover(caller)
 	case "ssa:wrapnilchk":
@@ -871,29 +877,31 @@ func growCap(need, old int) int {
 // allocation obligation is checked and the path is cut as outside the bound.
 func (m *Machine) makeSlice(tElt types.Type, ln, cp *Term, what string) []value {
 	esz := m.sizeof(tElt)
+	limitCheck := func(n int64) int64 {
+		if n < 0 {
+			m.targetPanic("runtime error: makeslice: len out of range")
+		}
+		if n > int64(1<<13) {
+			if m.opts.AllocBudget > 0 && n*esz > m.opts.AllocBudget {
+				m.violationNow("alloc", "bounded-alloc", fmt.Sprintf("%s of %d elements × %d bytes", what, n, esz),
+					map[string]string{"site": m.where()})
+				panic(&abortPath{kind: "violation-stop", reason: "oversized allocation"})
+			}
+			m.outside("%s of more than 8192 elements is beyond the engine's materialisation limit", what)
+		}
+		return n
+	}
 	check := func(t *Term) int64 {
 		if t.IsConst() {
-			n := t.SVal()
-			if n < 0 {
-				m.targetPanic("runtime error: makeslice: len out of range")
-			}
-			if n > int64(1<<24) {
-				if m.opts.AllocBudget > 0 && n*esz > m.opts.AllocBudget {
-					m.violationNow("alloc", "bounded-alloc", fmt.Sprintf("%s of %d elements × %d bytes", what, n, esz),
-						map[string]string{"site": m.where()})
-					panic(&abortPath{kind: "violation-stop", reason: "oversized allocation"})
-				}
-				m.outside("%s of %d elements is beyond the engine's materialisation limit", what, n)
-			}
-			return n
+			return limitCheck(t.SVal())
 		}
 		neg := tCmp("bvslt", t, mkConst(t.W, 0))
 		if m.branch(neg) {
 			m.targetPanic("runtime error: makeslice: len out of range")
 		}
-		return m.concretize(t, what+" size", m.opts.MaxLen+1, false, func(resid *Term) {
+		return limitCheck(m.concretize(t, what+" size", m.opts.MaxLen+1, false, func(resid *Term) {
 			m.allocObligation(t, esz, what)
-		})
+		}))
 	}
 	n := check(ln)
 	c := n
@@ -904,8 +912,17 @@ func (m *Machine) makeSlice(tElt types.Type, ln, cp *Term, what string) []value 
 		}
 	}
 	s := make([]value, c)
-	for i := range s {
-		s[i] = zero(tElt)
+	z := zero(tElt)
+	switch z.(type) {
+	case structV, arrayV:
+		for i := range s {
+			s[i] = zero(tElt)
+		}
+	default:
+		// immutable representation: share it
+		for i := range s {
+			s[i] = z
+		}
 	}
 	return s[:n]
 }
@@ -918,17 +935,44 @@ func (m *Machine) allocObligation(size *Term, esz int64, what string) {
 	m.obligations++
 	limit := uint64(m.opts.AllocBudget / esz)
 	over := tCmp("bvugt", size, mkConst(size.W, limit))
-	r := m.check(over)
-	if r == Unknown {
-		m.abort("solver unknown on allocation obligation")
-	}
-	if r == Sat {
+	d := m.nextDecision("br", func() *decision {
+		r := m.check(over)
+		if r == Unknown {
+			m.abort("solver unknown on allocation obligation")
+		}
+		if r == Unsat {
+			return &decision{alts: []uint64{1}}
+		}
+		m.maximizeInputs([]*Term{over})
 		m.recordViolation("alloc", "bounded-alloc",
 			fmt.Sprintf("%s: element count comes from the input and can exceed %d (×%d bytes) with this input length", what, limit, esz),
 			map[string]string{"site": m.where(), "func": m.curFn()})
+		// keep exploring under the assumption that this allocation stays within the budget, so that
+		// later allocation sites (and other findings) on the same path are still reached
+		if m.check(tNot(over)) == Sat {
+			return &decision{alts: []uint64{1}, resid: true}
+		}
+		return &decision{alts: []uint64{0}}
+	})
+	if d.alts[0] == 0 {
 		panic(&abortPath{kind: "violation-stop", reason: "unbounded allocation at " + m.where()})
 	}
+	if d.resid {
+		m.addPC(tNot(over))
+		return
+	}
 	m.discharged++
+}
+
+// toInt64 widens an integer operand of any integer type to a 64-bit (signed) length.
+func (m *Machine) toInt64(t *Term, typ types.Type) *Term {
+	if t.W == 64 {
+		return t
+	}
+	if b, ok := typ.Underlying().(*types.Basic); ok && isSigned(b) {
+		return tSext(t, 64)
+	}
+	return tZext(t, 64)
 }
 
 func (m *Machine) curFn() string {
